@@ -87,7 +87,7 @@ type Property struct {
 
 var registry = map[string]*Property{}
 
-func Register(p *Property) { registry[p.ID] = p }
+func Register(p *Property)       { registry[p.ID] = p }
 func Lookup(id string) *Property { return registry[id] }
 func IDs() []string {
 	var ids []string
